@@ -153,6 +153,47 @@ Example C20_session_two_transfers :
   sess_widths [SeStart false (-1); SeResize 60; SeEnd; SeStart false (-1)] 120 = [120; 60; 60; 60].
 Proof. vm_compute. split; reflexivity. Qed.
 
+(* FILES: what a line reports belongs to the current file.  The figures a line is computed
+   from (prefix already present, size, position) after a file has been announced - onName,
+   onSize - do not depend on anything the earlier files of the transfer did (resumed or not,
+   overshoots, stray calls): whatever the two earlier states, and whatever callbacks follow *)
+Theorem C20_file_figures_own : forall w sw mdr st1 st2 nm z rest,
+  figs (fst (run_cur w sw mdr (OpName nm :: OpSize z :: rest) st1)) =
+  figs (fst (run_cur w sw mdr (OpName nm :: OpSize z :: rest) st2)).
+Proof. exact c20_file_figures_own. Qed.
+Print Assumptions C20_file_figures_own.
+
+(* a file sent from its beginning starts at position 0 of its own size, 0 %, after any history *)
+Theorem C20_file_starts_at_zero : forall w sw dw mdr kmax, width_model w sw dw -> round_model mdr kmax ->
+  forall st nm z now t s e, 100 <= kmax -> 0 < z < 2 ^ 63 ->
+  figs (fst (run_cur w sw mdr [OpName nm; OpSize z; OpStep 0 now t s e] st)) = (0, z, 0) /\
+  st_pct mdr (fst (run_cur w sw mdr [OpName nm; OpSize z; OpStep 0 now t s e] st)) = 0.
+Proof. exact c20_file_start. Qed.
+Print Assumptions C20_file_starts_at_zero.
+
+(* a file - resumed after a prefix of any length found at the destination, or not - ends at
+   100 % of its OWN full size, whatever was matched and sent in between, after any history
+   (file_ops is the order in which transfer.go / append.go make the callbacks of one file) *)
+Theorem C20_file_ends_at_own_size : forall w sw dw mdr kmax, width_model w sw dw -> round_model mdr kmax ->
+  forall st nm full resume steps done, 100 <= kmax -> 0 < full < 2 ^ 63 ->
+  (forall hs m, resume = Some (hs, m) -> 0 <= m <= full) ->
+  p_size (fst (run_cur w sw mdr (file_ops nm full resume steps done) st)) = full /\
+  p_step (fst (run_cur w sw mdr (file_ops nm full resume steps done) st)) = full /\
+  st_pct mdr (fst (run_cur w sw mdr (file_ops nm full resume steps done) st)) = 100.
+Proof. exact c20_file_end. Qed.
+Print Assumptions C20_file_ends_at_own_size.
+
+(* the history of the third-round seeded change: a 600 KiB file of which 400 KiB are already at
+   the destination, then a 2000 byte file that is not: the second file ends at 2000 of 2000 *)
+Example C20_file_after_resumed_file :
+  let noinfo : str * str * str := ([], [], []) in
+  let st := fst (run_cur (fun _ => 1%nat) (fun s => length s) mdr_exact
+     (OpNum 2 :: file_ops [97%N] 614400 (Some ([(409600, 1000, noinfo)], 409600)) [(0, 2000, noinfo); (204800, 3000, noinfo)] (0, 4000, noinfo) ++
+                 file_ops [98%N] 2000 None [(0, 5000, noinfo); (2000, 6000, noinfo)] (0, 7000, noinfo))
+     (new_bar 120 0)) in
+  figs st = (0, 2000, 2000).
+Proof. vm_compute. reflexivity. Qed.
+
 (* the premises are satisfiable: the exact rounding the correspondence check executes is a
    round_model for every bound, and there is a width model *)
 Theorem C20_exact_rounding_is_a_model : forall kmax, round_model mdr_exact kmax.
